@@ -9,16 +9,160 @@ open Tmcg.Pgp Tmcg.Gen
 theorem ctxEvaluateT_wp (N : Nat) (u st : SubSt) (hu : u.emb ≤ N) : Wp N (ctxEvaluateT u st) (fun _ => True) := by
   unfold ctxEvaluateT; wp
 
-/-- the state after a subpacket area: the embedded signature it holds came from that area -/
-theorem subDecodeT_emb (N : Nat) (buf : Octets) (st : SubSt) (K : Nat) (hK : buf.length ≤ K) (hst : st.emb ≤ K) :
-    ∀ o, (subDecodeT buf st).out = .ok o → o.st.emb ≤ K := by
-  intro o ho
-  by_cases h : o.st.emb ≤ K
-  · exact h
-  · exfalso
-    -- the only writer of `emb` is type 32, which stores the body length
-    unfold subDecodeT at ho
-    simp only [bind, M.bind] at ho
-    sorry
+/-- the two subpacket areas of a V4/V5 signature -/
+macro "wp_sig" : tactic => `(tactic| first
+  | (apply wpb_of (subParseT_wp _ _ _ _ _ _ (by first | omega | (wp_unfold; omega)) (by dsimp only; omega)); intro _ _)
+  | (apply wpb_of (ctxEvaluateT_wp _ _ _ (by first | assumption | omega)); intro _ _)
+  | (apply wpb_of (sigMpis_wp _ _ _ (by first | omega | (wp_unfold; omega))); intro _ _)
+  | wp_step
+  | (refine wpb_of (Q := fun _ => True) ?_ _ _ ?_))
+
+set_option maxHeartbeats 2000000 in
+theorem tag2_wp (N : Nat) (pkt : Octets) (mem : Nat) (hN : pkt.length ≤ N) : Wp N (tag2 pkt mem) (fun _ => True) := by
+  unfold tag2
+  repeat' wp_sig
+  all_goals first | wp_close | trace_state
+
+
+macro "wp_sec" : tactic => `(tactic| first
+  | (apply wpb_of (keyPublic_call _ _ _ _ _ (by assumption)); intro _ _)
+  | (apply wpb_of (secretLoop_wp _ _ _ (by first | omega | (wp_unfold; omega))); intro _ _)
+  | wp_step
+  | split)
+
+set_option maxHeartbeats 4000000 in
+theorem tag57_wp (N : Nat) (tag : Nat) (pkt : Octets) (mem : Nat) (hN : pkt.length ≤ N) :
+    Wp N (tag57 tag pkt mem) (fun _ => True) := by
+  unfold tag57
+  repeat' (first
+    | (apply wpb_of (keyPublic_call _ _ _ _ _ (by assumption)); intro _ _)
+    | (apply wpb_of (secretLoop_wp _ _ _ (by first | omega | (wp_unfold; omega))); intro _ _)
+    | wp_step
+    | (refine wpb_of (Q := fun (r : Octets) => r.length ≤ N) ?_ _ _ ?_)
+    | split)
+  all_goals wp_close
+
+/-! ### framing -/
+
+theorem bodyLoop_wp (N : Nat) (nf : Bool) (lt tag fuel : Nat) (first : Bool) (input acc : Octets) (iters : Nat)
+    (hN : input.length ≤ N) :
+    Wp N (bodyLoop nf lt tag fuel first input acc iters) (fun r =>
+      r.1.length + r.2.1.length ≤ acc.length + input.length ∧ r.2.1.length ≤ input.length ∧
+      r.2.2 + r.2.1.length ≤ iters + input.length + 1) := by
+  induction fuel generalizing first input acc iters with
+  | zero => unfold bodyLoop; exact wp_refuse _ _
+  | succ fuel ih =>
+    unfold bodyLoop
+    apply wpb_of (lenDecode_wp N input nf lt); intro l hl
+    apply wpb_need; intro h0
+    dsimp only
+    apply wpb_need; intro hfit
+    apply wpb_need; intro _
+    apply wpb_need; intro _
+    have hfit' : (if l.headlen = 42 then 0 else l.headlen) + l.len ≤ input.length := by
+      revert hfit; wp_unfold; split <;> omega
+    have hpos : l.partlen = true → 1 ≤ (if l.headlen = 42 then 0 else l.headlen) + l.len := by
+      intro hp; have := hl.2.2.1 hp; split <;> omega
+    apply wpb_emit _ _ _ (by simp only [Access.ok]; omega)
+    apply wpb_slice _ _ _ _ _ ⟨by omega, hfit'⟩
+    apply wpb_eraseFront _ _ _ _ hfit'
+    apply wp_ite
+    · intro hp
+      refine wp_mono (ih false _ _ _ (by simp only [List.length_drop]; omega)) ?_
+      intro r hr
+      have := hpos hp
+      simp only [List.length_drop, List.length_take, List.length_append] at hr ⊢
+      omega
+    · intro _
+      apply wp_pure
+      simp only [List.length_drop, List.length_take, List.length_append]
+      omega
+
+theorem frame_wp (N : Nat) (input : Octets) (hN : input.length ≤ N) :
+    Wp N (frame input) (fun f => f.body.length + f.rest.length + 1 ≤ input.length ∧ f.iters ≤ input.length + 1) := by
+  unfold frame
+  apply wpb_need; intro h1
+  apply wpb_rd _ _ _ _ (by omega); intro t _
+  apply wpb_eraseFront _ _ _ _ (by omega)
+  apply wpb_need; intro _
+  dsimp only
+  apply wpb_of (bodyLoop_wp N _ _ _ _ true _ [] 0 (by simp only [List.length_drop]; omega)); intro r hr
+  apply wp_pure
+  simp only [List.length_drop, List.length_nil] at hr ⊢
+  omega
+
+set_option maxRecDepth 100000 in
+set_option maxHeartbeats 1000000 in
+theorem dispatch_wp (N : Nat) (tag : Nat) (nf : Bool) (pkt : Octets) (mem : Nat) (hN : pkt.length ≤ N) :
+    Wp N (dispatch tag nf pkt mem) (fun _ => True) := by
+  unfold dispatch
+  split
+  · apply wpb_of (tag1_wp N pkt hN); intro _ _; exact wp_pure _ _ trivial
+  · exact wp_mono (tag2_wp N pkt mem hN) (fun _ _ => trivial)
+  · apply wpb_of (tag3_wp N pkt mem hN); intro _ _; exact wp_pure _ _ trivial
+  · apply wpb_of (tag4_wp N pkt); intro _ _; exact wp_pure _ _ trivial
+  · apply wpb_of (tag57_wp N _ pkt mem hN); intro _ _; exact wp_pure _ _ trivial
+  · apply wpb_of (tag57_wp N _ pkt mem hN); intro _ _; exact wp_pure _ _ trivial
+  · apply wpb_of (tag614_wp N _ pkt hN); intro _ _; exact wp_pure _ _ trivial
+  · apply wpb_of (tag614_wp N _ pkt hN); intro _ _; exact wp_pure _ _ trivial
+  · apply wpb_of (tag8_wp N pkt mem hN); intro _ _; exact wp_pure _ _ trivial
+  · apply wpb_of (tag9_wp N pkt mem hN); intro _ _; exact wp_pure _ _ trivial
+  · apply wpb_of (tag10_wp N pkt); intro _ _; exact wp_pure _ _ trivial
+  · apply wpb_of (tag11_wp N pkt mem hN); intro _ _; exact wp_pure _ _ trivial
+  · exact wp_pure _ _ trivial
+  · apply wpb_of (tag13_wp N pkt mem hN); intro _ _; exact wp_pure _ _ trivial
+  · apply wpb_of (tag17_wp N pkt mem hN); intro _ _; exact wp_pure _ _ trivial
+  · apply wpb_of (tag18_wp N pkt mem hN); intro _ _; exact wp_pure _ _ trivial
+  · apply wpb_of (tag19_wp N nf pkt); intro _ _; exact wp_pure _ _ trivial
+  · apply wpb_of (tag20_wp N pkt mem hN); intro _ _; exact wp_pure _ _ trivial
+  · exact wp_warn _ _
+
+theorem packetDecodeT_wp (input : Octets) (mem : Nat) :
+    Wp input.length (packetDecodeT input mem) (fun r => r.consumed ≤ input.length ∧ 1 ≤ r.consumed ∧
+      r.iters ≤ input.length + 1) := by
+  unfold packetDecodeT
+  apply wpb_of (frame_wp input.length input (Nat.le_refl _)); intro f hf
+  apply wpb_of (dispatch_wp input.length f.tag f.newformat f.body mem (by omega)); intro r _
+  apply wp_pure
+  dsimp only
+  omega
+
+/-! ### whole runs -/
+
+theorem run_trace (input : Octets) (mem : Nat) : (run input mem).trace = (packetDecodeT input mem).trace := by
+  unfold run
+  dsimp only
+  split
+  · rfl
+  · rfl
+  · rfl
+
+/-- every access of every run is in bounds -/
+theorem run_safe (input : Octets) (mem : Nat) : ∀ a ∈ (run input mem).trace, a.ok input.length := by
+  rw [run_trace]
+  exact (packetDecodeT_wp input mem).1
+
+/-- a run consumes at most the input and at least the header octet, and the length loop runs at most
+    `|input| + 1` times -/
+theorem run_result (input : Octets) (mem : Nat) (r : Result) (h : (run input mem).out = .ok r) :
+    r.consumed ≤ input.length ∧ r.iters ≤ input.length + 1 := by
+  unfold run at h
+  dsimp only at h
+  split at h
+  · rename_i r' hr
+    have := (packetDecodeT_wp input mem).2 r' hr
+    simp only [Except.ok.injEq] at h
+    subst h
+    omega
+  · simp at h
+  · simp only [Except.ok.injEq] at h
+    subst h
+    dsimp only
+    constructor
+    · unfold framedConsumed; split <;> omega
+    · split
+      · rename_i f hf
+        exact ((frame_wp input.length input (Nat.le_refl _)).2 f hf).2
+      · omega
 
 end Tmcg.PgpBounds
